@@ -58,6 +58,7 @@ Fixpoint dec_msgs (fuel : nat) (k : Z) (b : list Z) : res p_err (list msg * list
 Definition decode_container (b : list Z) : res p_err (list msg * list Z) :=
   do b1 <- wrapT (consume_id c_MessageContainerTypeID b);
   do (n, b2) <- wrapT (decode_int b1);
+  if container_count_bad_go n then Err (PTl EInvalidLength) else   (* negative count *)
   dec_msgs (S (length b2)) n b2.
 
 (* ---------- rpc_result ---------- *)
